@@ -136,6 +136,7 @@ def explore(sysm, *, state_cap=200000, depth_cap=None, keep_states=False, max_vi
     pool = mp.get_context("fork").Pool(workers) if workers > 1 else None
     depth = 0
     poisoned = set()
+    alt_parent = {}
     try:
         while frontier:
             if depth_cap is not None and depth >= depth_cap:
@@ -194,6 +195,8 @@ def explore(sysm, *, state_cap=200000, depth_cap=None, keep_states=False, max_vi
                             nxt.append(j)
                         else:
                             res.merges += 1
+                            if not viols and not pois:
+                                alt_parent[j] = (idx, ev)  # the LAST transition found into j (BFS keeps the first as parent)
                             if not viols and not pois and models[j] != model2:
                                 res.nviol += 1
                                 if len(res.violations) < max_viol:
@@ -239,19 +242,36 @@ def explore(sysm, *, state_cap=200000, depth_cap=None, keep_states=False, max_vi
     res.states = len(snaps)
     res.max_depth = depth
     res.exhaustive = res.capped is None and not frontier
-    # replay validation: every state's shortest history on ONE live object, no snapshots
-    if validate_replays and hasattr(sysm, "live_new"):
+    # replay validation: every state's shortest history on ONE live object, no snapshots -- and, for every state that was
+    # reached more than once, also the last-found other way into it (parent's history + that event), so that events which
+    # are never first to discover a state (batches, faults) are exercised on long-lived objects too.  After every event of
+    # a replay the system may observe the live object (live_check): what an object memoises across calls is invisible to
+    # snapshot/restore exploration, a long-lived object shows it.
+    if validate_replays and hasattr(sysm, "live_new") and not res.nviol:
+        global _REPLAY_CTX
         n = len(snaps) if replay_cap is None else min(len(snaps), replay_cap)
-        idxs = range(len(snaps)) if n == len(snaps) else _spread(len(snaps), n)
-        for i in idxs:
-            h = _hist(parents, i)
-            live = sysm.live_new(h[0][1])
-            for ev in h[1:]:
-                sysm.live_apply(live, ev)
-            c = sysm.live_canon(live)
-            if c != canons[i]:
-                raise HarnessError(f"replay mismatch for history {jsonable(h)}: snapshot semantics differ from live object")
-            res.replayed += 1
+        idxs = list(range(len(snaps))) if n == len(snaps) else _spread(len(snaps), n)
+        _REPLAY_CTX = (parents, alt_parent, canons)
+        nch = max(1, min(len(idxs), workers * 4))
+        size = (len(idxs) + nch - 1) // nch
+        chunks = [idxs[j: j + size] for j in range(0, len(idxs), size)]
+        if workers > 1 and len(idxs) > 64:
+            rp = mp.get_context("fork").Pool(workers)
+            try:
+                outs = rp.map(_replay_chunk, chunks)
+            finally:
+                rp.close()
+                rp.join()
+        else:
+            outs = [_replay_chunk(ch) for ch in chunks]
+        for count, viols, mismatch in outs:
+            if mismatch:
+                raise HarnessError(mismatch)
+            res.replayed += count
+            for v in viols:
+                res.nviol += 1
+                if len(res.violations) < max_viol:
+                    res.violations.append(v)
     # samples
     for i in _spread(len(snaps), min(4, len(snaps))):
         res.samples.append(dict(history=jsonable(_hist(parents, i)), model=jsonable(models[i])))
@@ -277,6 +297,36 @@ def _hist(parents, idx):
         idx = p
     out.reverse()
     return out
+
+
+_REPLAY_CTX = None
+
+
+def _replay_chunk(idxs):
+    sysm = _SYS
+    parents, alt_parent, canons = _REPLAY_CTX
+    has_check = hasattr(sysm, "live_check")
+    if hasattr(sysm, "task_reset"):
+        sysm.task_reset()
+    count, viols = 0, []
+    for i in idxs:
+        hs = [_hist(parents, i)]
+        if i in alt_parent:
+            hs.append(_hist(parents, alt_parent[i][0]) + [alt_parent[i][1]])
+        for h in hs:
+            live = sysm.live_new(h[0][1])
+            for k, ev in enumerate(h[1:]):
+                sysm.live_apply(live, ev)
+                if has_check and len(viols) < 8:
+                    for v in sysm.live_check(live):
+                        v = dict(v)
+                        v["hist"] = h[: k + 2]
+                        v.setdefault("detail", {})["observed_on"] = "long-lived object during replay validation"
+                        viols.append(v)
+            if sysm.live_canon(live) != canons[i]:
+                return count, viols, f"replay mismatch for history {jsonable(h)}: snapshot semantics differ from live object"
+            count += 1
+    return count, viols, None
 
 
 class HarnessError(Exception):
